@@ -1,21 +1,10 @@
 import ArmiVerif.Gen.Src
 import ArmiVerif.Model.XsGroup
+import ArmiVerif.Props.SrcTie.XsLemmas
 open ArmiVerif ArmiVerif.Gen.Src ArmiVerif.PyInt
 set_option linter.unusedSimpArgs false
 
 namespace ArmiVerif.SrcTie
-
-/-- code points of the admissible XS type characters A–Z a–z -/
-def admCodes : List Nat := (List.range 123).filter XsGroup.admissibleChar
-
-/-- a label / number as Python sees it -/
-def castL (l : List Nat) : List Int := l.map (fun (c : Nat) => (c : Int))
-
-theorem mem_admCodes (c : Nat) (h : XsGroup.admissibleChar c = true) : c ∈ admCodes := by
-  have hlt : c < 123 := by
-    simp only [XsGroup.admissibleChar, Bool.or_eq_true, Bool.and_eq_true, decide_eq_true_eq] at h
-    omega
-  simp [admCodes, List.mem_filter, hlt, h]
 
 theorem number1' : (admCodes.all fun c => decide
     (CrossSectionGroupManager.getXSTypeNumberFromLabel [(c : Int)]
